@@ -152,6 +152,14 @@ pub proof fn lemma_entries_sorted_from_model(es: Seq<BlockEntry<InternalKey>>, k
                 assert(m == tbl_model(self));
                 assert(forall|i2: int, j2: int| !tm_visible(m, t.user, t.seq, i2, j2));
             }
+//@before /return Err\(ReadError::KeyNotFound\);/ nth=3
+                    proof {
+                        // the entry the block cursor stopped at belongs to another user key
+                        assert(found_key.user_key@ != key.user_key@);
+                        assert(m.blocks[i][j].k.user != t.user);
+                        assert(t.user == key.user_key@ && t.seq == key.sequence_number && m == tbl_model(self));
+                        assert(forall|i2: int, j2: int| !tm_visible(m, t.user, t.seq, i2, j2));
+                    }
 //@before /return Err\(ReadError::KeyNotFound\);/ nth=2
             proof {
                 let fr = self.maybe_filter_block.unwrap();
